@@ -21,6 +21,7 @@ type Profile struct {
 	PMovesArg                                                                                      float64
 	PFormat                                                                                        float64 // of inline texts, fraction wrapped in format()
 	NoFormatParams                                                                                 bool    // format() calls never carry explicit parameters
+	PEndVariants                                                                                   float64 // of end/return statements, fraction spelled END / Return / ... (ordinary commands)
 	PTyped                                                                                         float64 // of texts, fraction with a string type prefix
 	RichArgs                                                                                       bool    // multi-token / odd-token arguments
 	PEmptyBody                                                                                     float64
@@ -639,6 +640,14 @@ func (g *Gen) stmts(n int, tailOK bool) []Stmt {
 			continue
 		}
 		out = append(out, st)
+		if cs, ok := st.(*CmdStmt); ok && cs.Cmd.Name == "goto" && len(cs.Cmd.Args) == 1 && cs.Cmd.Args[0].Toks[0] == "?" && g.R.IntN(5) == 0 {
+			// a goto whose label is the very next statement (still a command of the script)
+			l := &Label{ID: g.Prog.NewID(), Name: g.Name("LblNext")}
+			g.labels = append(g.labels, l.Name)
+			cs.Cmd.Args[0].Toks = []string{l.Name}
+			out = append(out, l)
+			continue
+		}
 		if stop && !g.chance(g.P.AfterJump) {
 			break
 		}
@@ -700,6 +709,10 @@ func (g *Gen) stmt(contOK bool) (Stmt, bool) {
 		g.gotos = append(g.gotos, c)
 		return &CmdStmt{Cmd: c}, true
 	case 3:
+		if g.chance(g.P.PEndVariants) {
+			// `END`, `Return`, ...: only the exact lower-case spellings end a script; these are ordinary commands
+			return &CmdStmt{Cmd: &Cmd{ID: g.Prog.NewID(), Name: []string{"END", "End", "RETURN", "Return", "eNd", "GOTO"}[g.R.IntN(6)]}}, false
+		}
 		return &CmdStmt{Cmd: &Cmd{ID: g.Prog.NewID(), Name: []string{"end", "return"}[g.R.IntN(2)]}}, true
 	case 4:
 		return g.ifStmt(), false
@@ -803,6 +816,9 @@ func (g *Gen) switchStmt(contOK bool) *Switch {
 					v = []string{"MAC_ID", "(", []string{"COLOR_RED", "COLOR_BLUE", "2"}[g.R.IntN(3)], ",", strconv.Itoa(g.R.IntN(3)), ")"}
 				} else if g.P.MultiTokenCases && g.R.IntN(4) == 0 {
 					v = []string{g.Name("BASE_"), "+", strconv.Itoa(g.R.IntN(4))}
+				} else if g.R.IntN(12) == 0 {
+					// boolean keywords are ordinary case values (typical after a yes/no box)
+					v = []string{[]string{"TRUE", "FALSE", "true", "false"}[g.R.IntN(4)]}
 				} else if g.R.IntN(4) == 0 {
 					v = []string{g.Name("CASE_")}
 				} else {
@@ -898,6 +914,9 @@ func (g *Gen) ScriptBody(owner string) *Block {
 	}
 	b.Stmts = g.stmts(n, true)
 	for _, c := range g.gotos {
+		if c.Args[0].Toks[0] != "?" {
+			continue // already bound to the label that follows it
+		}
 		if len(g.labels) > 0 && g.R.IntN(5) != 0 {
 			c.Args[0].Toks = []string{g.labels[g.R.IntN(len(g.labels))]}
 		} else {
